@@ -20,6 +20,7 @@ import (
 	"os"
 	"os/signal"
 	"path/filepath"
+	"regexp"
 	"sort"
 	"strings"
 	"sync"
@@ -79,6 +80,28 @@ func (s *shared) noteOnce(key, text string) {
 		fmt.Println(text)
 		s.r.Note(text)
 	}
+}
+
+var siteRe = regexp.MustCompile(`(?m)^github\.com/jamf/regatta/([A-Za-z0-9_/]+\.(?:\(\*?[A-Za-z0-9_]+\)\.)?[A-Za-z0-9_]+)`)
+
+// panicSite returns the first regatta function in the stack of the panicking goroutine
+// ("" when the panic was raised on a goroutine that runs no regatta code, e.g. inside dragonboat).
+func panicSite(excerpt string) string {
+	i := strings.Index(excerpt, "[running]:")
+	if i < 0 {
+		return ""
+	}
+	rest := excerpt[i:]
+	if j := strings.Index(rest, "\n\ngoroutine "); j > 0 {
+		rest = rest[:j] // only the panicking goroutine
+	}
+	for _, m := range siteRe.FindAllStringSubmatch(rest, -1) {
+		if strings.HasPrefix(m[1], "log.") {
+			continue // the logging adapter third-party code panics through is not a failure site
+		}
+		return strings.NewReplacer("(", "", ")", "", "*", "").Replace(m[1])
+	}
+	return ""
 }
 
 func pebbleBoundsInvariant(lines []string) bool {
@@ -1133,6 +1156,11 @@ func (l *lane) crashed(q *request, exp expectation, out outcome) {
 			kind = exp.Rule
 		}
 		sig := fmt.Sprintf("crash-%s-%s-%s", role, methodSlug(q.Method), kind)
+		if site := panicSite(excerpt); site != "" {
+			// a panic raised in regatta's own code: the site names the failure class better than
+			// whatever request happened to trigger it
+			sig = fmt.Sprintf("crash-%s-panic-at-%s", role, site)
+		}
 		l.r.Count("server_crashes", 1)
 		l.sh.violation(sig, fmt.Sprintf("the %s process died (%s) while/after serving %s %s [%s]: %s — %s", role, p.exitString(), l.target(q), q.Method, q.Kind, trunc(render(q.Msg), 200), what),
 			l.witness(q, exp, fmt.Sprintf("%s %q; process: %s", out.Code, trunc(out.Msg, 120), p.exitString()), trunc(excerpt, 2500)))
@@ -1199,6 +1227,14 @@ func (l *lane) finish() {
 		exited, how := p.terminate(90 * time.Second)
 		lines, excerpt := p.crashLines()
 		w := witness{Lane: l.id, Seed: l.r.Seed, Tier: l.r.Tier, Target: p.name, Method: "-", Request: "(SIGTERM at the end of the run)", Observed: how, N: 1 << 30, Recent: l.recent}
+		if pebbleBoundsInvariant(lines) && !l.crashReported[p] {
+			// see crashed(): a race-build-only assertion of pebble, not the product's behaviour
+			l.crashReported[p] = true
+			l.r.Count("race_build_only_pebble_invariant_terminations", 1)
+			l.sh.setAvoidInverted()
+			l.noteRaces(p)
+			continue
+		}
 		switch {
 		case !wasAlive && !l.crashReported[p]:
 			l.crashReported[p] = true
